@@ -371,8 +371,37 @@ def sibling_holdings_filter(F, rep):
            preds.get("cgt_formatter_plain:site", ""), key="R8:holdings-filter:plain-vs-pdf")
 
 
+NUMERIC_TY = re.compile(r"^&*(rust_decimal::decimal::Decimal|f32|f64|[iu](8|16|32|64|128|size))$")
+PRESENTATION_CRATES = ("cgt_format", "cgt_formatter_plain", "cgt_formatter_pdf", "cgt_mcp", "cgt_tool", "cgt_wasm")
+
+
+def clipped_text(F, rep=None, crates=PRESENTATION_CRATES, rule="R4"):
+    """No presentation template gives a PRECISION to a text argument. On a number `{:.2}` rounds; on a string `{:.12}` / `{:<w$.w$}` CUTS
+    the text after that many characters. A table cell that is clipped to its column shows `£1,234,567.8` where every other output of
+    the same report shows £1,234,567.89 (seeded change C17-s9). Width alone only pads."""
+    from flow import format_calls
+    bad, n = [], 0
+    for b in F.bodies.values():
+        if b.crate not in crates or not P.user_written(F, b):
+            continue
+        for fc in format_calls(F, b):
+            for p in fc["parts"] or []:
+                if p[0] != "arg":
+                    continue
+                n += 1
+                if "precision" in p[4] and not NUMERIC_TY.match(str(p[3]).replace("&'_ ", "&").replace(" ", "")):
+                    bad.append((b, fc["site"], p[3]))
+    if rep is not None:
+        rep.ob(rule, "templates:no-precision-on-text", not bad, f"{n} template arguments in presentation code, no text argument carries a precision" if not bad else
+               "; ".join(f"`{b.short}` formats a `{ty}` with a precision" for b, site, ty in bad[:3]) + ": the text (an already formatted figure) is cut to that "
+               "many characters, so a long figure loses its last digits in this output only", bad[0][1] if bad else "", key=f"{rule}:templates:text-clipped")
+        rep.count("presentation_template_args", n)
+    return bad
+
+
 def run(ctx, rep):
     F = ctx.F
+    clipped_text(F, rep)
     # the same figures everywhere presuppose the same calculation everywhere: every front-end hands over all parsed lines
     import rules.c02 as _c02
     _c02.frontends_hand_over_everything(F, rep, "R12")
@@ -399,6 +428,8 @@ def controls(pctx, rep):
     rep.control("R1:bare-round_dp", any("round_bare" in k for k in ks), "posctl::round_bare")
     rep.control("R1:away-ok", not any("round_away_ok" in k for k in ks), "posctl::round_away_ok must stay silent")
     rep.control("R1:wrong-strategy", any("round_half_even_strategy" in k for k in ks), "posctl::round_half_even_strategy")
+    cb = {b.short for b, site, ty in clipped_text(F, None, crates=("posctl",))}
+    rep.control("R4:text-clipped", cb == {"fmt_text_clipped"}, f"posctl: text formatted with a precision in {sorted(cb)} (expected ['fmt_text_clipped'])")
     r2 = Report("ctl")
     floats(F, r2, bodies=[b for b in F.bodies.values() if b.short.startswith("float_")])
     rep.control("R2:to_f64", any("float_conv" in v["key"] for v in r2.violations), "posctl::float_conv")
